@@ -150,12 +150,12 @@ var valueExprs = []string{"$pw", "\"s\"", "[1]", "new Base()", "new Child()", "n
 
 // accepts[type][value kind]
 var accepts = [][]bool{
-	{true, false, false, false, false, false, false, false, false},  // int
-	{false, true, false, false, false, false, false, false, false},  // string
-	{false, false, true, false, false, false, false, false, false},  // array
-	{false, false, false, true, true, false, false, false, false},   // Base (and its subclass)
-	{true, false, false, false, false, false, true, false, false},   // ?int
-	{true, true, false, false, false, false, false, false, false},   // int|string
+	{true, false, false, false, false, false, false, false, false}, // int
+	{false, true, false, false, false, false, false, false, false}, // string
+	{false, false, true, false, false, false, false, false, false}, // array
+	{false, false, false, true, true, false, false, false, false},  // Base (and its subclass)
+	{true, false, false, false, false, false, true, false, false},  // ?int
+	{true, true, false, false, false, false, false, false, false},  // int|string
 }
 
 const typeFixture = `
@@ -208,15 +208,18 @@ func H_types() {
 // ---- abstract classes / interfaces / unimplemented abstract methods
 
 func H_abstract() {
-	k := symx.Choose("case", 4)
+	k := symx.Choose("case", 5)
+	// every attempt is made several times: a rejection must not wear off (nor an acceptance)
+	rep := func(stmt string) string { return guarded(stmt) + " " + guarded(stmt) + " " + guarded(stmt) }
 	srcs := []string{
-		"abstract class A { abstract function m(); } " + guarded("$o = new A(); mark(70);") + " mark(99);",
-		"interface I { function m(); } " + guarded("$o = new I(); mark(70);") + " mark(99);",
-		"abstract class A { abstract function m(); } class C extends A { function m() { return 1; } } " + guarded("$o = new C(); mark(70);") + " mark(99);",
-		"abstract class A { abstract function m(); } class D extends A { } " + guarded("$o = new D(); mark(70);") + " mark(99);",
+		"abstract class A { abstract function m(); } " + rep("$o = new A(); mark(70);") + " mark(99);",
+		"interface I { function m(); } " + rep("$o = new I(); mark(70);") + " mark(99);",
+		"abstract class A { abstract function m(); } class C extends A { function m() { return 1; } } " + rep("$o = new C(); mark(70);") + " mark(99);",
+		"abstract class A { abstract function m(); } class D extends A { } " + rep("$o = new D(); mark(70);") + " mark(99);",
+		"interface J { function m(); } class E implements J { } " + rep("$o = new E(); mark(70);") + " mark(99);",
 	}
 	s := sx.Compile(srcs[k])
-	if k == 3 && s.Err != nil {
+	if k >= 3 && s.Err != nil {
 		symx.Reach("end") // rejected at declaration: fine
 		return
 	}
@@ -225,7 +228,7 @@ func H_abstract() {
 		return
 	}
 	_, ctl := s.Run()
-	if k == 3 && ctl != nil {
+	if k >= 3 && ctl != nil {
 		symx.Reach("end") // rejected when the class is declared
 		return
 	}
@@ -237,7 +240,10 @@ func H_abstract() {
 	if k == 2 {
 		want = 70
 	}
-	ok := len(sx.Log) == 2 && sx.Log[0].Kind == 'M' && sx.Log[0].I == want
-	symx.Assert(ok, []string{"abstract class cannot be instantiated", "interface cannot be instantiated", "concrete subclass implementing the abstract method can be instantiated", "concrete class must implement every inherited abstract method"}[k])
+	ok := len(sx.Log) == 4
+	for a := 0; ok && a < 3; a++ {
+		ok = sx.Log[a].Kind == 'M' && sx.Log[a].I == want
+	}
+	symx.Assert(ok, []string{"abstract class cannot be instantiated (every attempt)", "interface cannot be instantiated (every attempt)", "concrete subclass implementing the abstract method can be instantiated", "concrete class must implement every inherited abstract method (every attempt)", "concrete class must implement every interface method (every attempt)"}[k])
 	symx.Reach("end")
 }
